@@ -273,7 +273,7 @@ func cmdCheck(args []string) int {
 		}
 		// zero-annotation safety sweep: functions without a contract, every implicit-panic site one obligation
 		if sw, ok := cs.Sweep[prop]; ok && sw {
-			for _, fn := range v.SweepTargets(cs.PkgPath) {
+			for _, fn := range v.SweepTargets(cs.PkgPath, prop) {
 				tn := targetName(fn)
 				if *only != "" && !strings.Contains(cs.Label+"."+tn, *only) {
 					continue
